@@ -23,8 +23,9 @@
 From Coq Require Import String.
 From PV Require Import Base.Bytes Base.Outcome Base.Fmt Base.Enum Base.PyData.
 From PV Require Import Gen.ElfLayouts Spec.ElfGabi Spec.C01Obs Spec.C01Image Model.C01ElfFile.
+From PV Require Import Spec.C01Machines.
 From PV Require Import Proofs.C01Lemmas Proofs.C01Open Proofs.C01Sections Proofs.C01Iter
-  Proofs.C01Dispatch Proofs.C01Top Proofs.C01Examples.
+  Proofs.C01Dispatch Proofs.C01Machines Proofs.C01Top Proofs.C01Examples.
 Open Scope string_scope.
 Open Scope list_scope.
 Open Scope Z_scope.
@@ -163,6 +164,39 @@ Theorem C01_enum_adapter : forall b f id z,
   bind_of b f = Some (id, false) -> adapt_field b f (VZ z) = Some (named (table_of_id id) z).
 Proof. exact adapt_field_bound. Qed.
 Print Assumptions C01_enum_adapter.
+
+(* ---- 6b. the e_machine-dependent dictionaries (structs.py create_advanced_structs, regenerated
+   as a machine -> dictionary map for EVERY name of ENUM_E_MACHINE and for unnamed numbers) obey
+   the gABI rule: for every machine key k and every code z, outside the processor-specific range
+   0x70000000..0x7fffffff the name of z is the one an unknown machine gets; inside it a name is
+   reported only if it carries that machine's prefix (so machines without a supplement report
+   raw integers there) ... *)
+Theorem C01_machine_dicts : forall s,
+  T_sh_type s = sh_dict (machine_key (exp_machine s)) /\ T_p_type s = p_dict (machine_key (exp_machine s)).
+Proof. exact image_dicts. Qed.
+Print Assumptions C01_machine_dicts.
+
+Theorem C01_machine_sh_types : forall k z,
+  (in_proc z = false -> Enum.dict_get (sh_dict k) z = Enum.dict_get (sh_dict "<raw>") z) /\
+  (forall n, in_proc z = true -> Enum.dict_get (sh_dict k) z = Some n ->
+     exists pfx, In pfx (prefixes_of sh_proc_prefixes k) /\ String.prefix pfx n = true).
+Proof. exact sh_tables_rule. Qed.
+Print Assumptions C01_machine_sh_types.
+
+Theorem C01_machine_p_types : forall k z,
+  (in_proc z = false -> Enum.dict_get (p_dict k) z = Enum.dict_get (p_dict "<raw>") z) /\
+  (forall n, in_proc z = true -> Enum.dict_get (p_dict k) z = Some n ->
+     exists pfx, In pfx (prefixes_of p_proc_prefixes k) /\ String.prefix pfx n = true).
+Proof. exact p_tables_rule. Qed.
+Print Assumptions C01_machine_p_types.
+
+(* ... and the codes the processor supplements fix are reported by name for their machine
+   (ARM / AArch64 / x86-64 / MIPS / RISC-V: Spec/C01Machines.v sh_anchors, p_anchors) *)
+Theorem C01_machine_anchors : forall k z n,
+  (In (k, z, n) sh_anchors -> Enum.dict_get (sh_dict k) z = Some n) /\
+  (In (k, z, n) p_anchors -> Enum.dict_get (p_dict k) z = Some n).
+Proof. exact (fun k z n => conj (sh_tables_anchors k z n) (p_tables_anchors k z n)). Qed.
+Print Assumptions C01_machine_anchors.
 
 (* ---- 7. dispatch: for EVERY stream and header (no well-formedness assumed), an object that
    _make_section returns has the class Spec.kind_table assigns to the decoded type — with the
